@@ -1,107 +1,144 @@
 ----------------------------- MODULE AsCore_Trace -----------------------------
 (***************************************************************************)
-(* Composition: one recorded statement = one step of ALL statement-level   *)
-(* machines of the specification at once (DESIGN.md section 7, step 8).    *)
+(* Trace validation of the composed specification (AsCore.tla): ONE        *)
+(* recorded execution of the real assembler (one process, all passes) is   *)
+(* validated against ALL statement-level machines at once.                 *)
 (*                                                                         *)
-(*   CA  conditional assembly (CondAsm)      IF/SWITCH stack, ifasm        *)
-(*   AB  address bookkeeping  (AddrBook)     counters, phases, segments,   *)
-(*                                           SAVE/RESTORE, STRUCT bodies   *)
+(* The run / file / pass protocol (options, freshness of every pass, the   *)
+(* do-while condition of the pass loop, keep / unlink of the code file,    *)
+(* exit status) is Driver_Trace's, reused by INSTANCE: its actions Run,    *)
+(* File, Pass, Last, PassEnd, FileEnd, Exit are conjuncts of the steps     *)
+(* below and its variables are variables of this module.                   *)
 (*                                                                         *)
-(* Besides validating each machine's own step, the composition checks the  *)
-(* cross-machine claims that no single machine can state:                  *)
-(*   SkippedIsInert   a line in a branch that is not selected (ifasm false *)
-(*                    before and after, not an IF-family statement) emits  *)
-(*                    and reserves nothing and moves no counter, phase,    *)
-(*                    segment, SAVE or STRUCT state                        *)
-(*   RecordedIsInert  a line swallowed by a MACRO/REPT/IRP/WHILE body that *)
-(*                    is being recorded changes neither machine            *)
-(*   IfFamilyIsAddressNeutral  IF/ELSE/ENDIF/SWITCH/CASE/... never move    *)
-(*                    an address, even when they are assembled             *)
-(* Event = the `stmt` hook record of one source line, regrouped with the   *)
-(* emit/reserve/retract records of that line:                              *)
-(*  [ca |-> CondAsm action, cb |-> AddrBook class, rec, argc, ifasm, stk,  *)
-(*    errs, chunks, seg, pc, ph, phd, svd, std, len]                        *)
+(* Events (hook records regrouped per source statement by                  *)
+(* checks/ext_ascore.py; regrouping and tokenising only):                  *)
+(*  RUN, FILE, LAST, PASSEND, FILEEND, EXIT   as in Driver_Trace           *)
+(*  PASS  Driver_Trace's PASS + [last, hasfile, recs, problems, entries]:  *)
+(*        for the last pass of a kept file the code file as parsed by the  *)
+(*        independent reader                                               *)
+(*  S     one execution of Produce_Code:                                   *)
+(*        pre   lines delivered before it that never became a statement    *)
+(*              (preprocessor lines), each [nl, tx, dp, em]                *)
+(*        nl,tx,dp,em  `line` record: no line (chain empty), text (interned*)
+(*              id, 0 = empty text), chain length after GetNextLine,       *)
+(*              "top tag exhausted"                                        *)
+(*        op, argc, lab, wm, ca, cb, mc, nm   statement: OpPart, ArgCnt,   *)
+(*              label field present, WasMACRO, class for CondAsm, class    *)
+(*              for AddrBook, class for the macro processor, name defined  *)
+(*              by a MACRO statement                                       *)
+(*        ifasm, stk, rec, tagd, errs, seg, pc, ph, phd, svd, std, len     *)
+(*              state AFTER the statement (stmt record)                    *)
+(*        dg    diag records of the line  [num, cls, errs, warns]          *)
+(*        sd    first sym_def record after the line was delivered          *)
+(*        ch    emit / reserve / retract records [k, seg, addr, n, g, b,nb]*)
+(*  L     lines delivered at the end of a pass that never became a         *)
+(*        statement;   T  diag records outside statements (end of pass)    *)
 (***************************************************************************)
-EXTENDS Integers, Sequences, FiniteSets, TLC, Json, IOUtils
+EXTENDS AsCore, Json, IOUtils
 
-CONSTANTS Segs, StructSeg
-CA == INSTANCE CondAsm
-AB == INSTANCE AddrBook
+VARIABLES l, base, ca, ab, mp, cw, tl,
+          ph, o, d, glob, keptq, cur, pass1, lastpe, resid, lastst, prevdiag
+mine == <<base, ca, ab, mp, cw, tl>>
+vars == <<l, base, ca, ab, mp, cw, tl, ph, o, d, glob, keptq, cur, pass1, lastpe, resid, lastst, prevdiag>>
 
-VARIABLES l, ca, ab, perr
-vars == <<l, ca, ab, perr>>
+DR == INSTANCE Driver_Trace WITH Wrap <- 0, Leaky <- {}
+
 TraceLog == ndJsonDeserialize(IOEnv.TRACE)
+Tx(i) == TraceLog[i].tx
+Recs == TraceLog[base].recs            \* kept out of the state: it is large
 
-\* ---- CondAsm side (same as CondAsm_Trace) ----------------------------------------------------------------
-AbsStk(stk) == [i \in 1..Len(stk) |-> [st |-> stk[i].st, found |-> stk[i].found, save |-> stk[i].save]]
-LogStk(e) == [i \in 1..Len(e.stk) |-> [st |-> e.stk[i][1], found |-> e.stk[i][2] = 1, save |-> e.stk[i][3] = 1]]
-CAMatches(m, e) == m.ifasm = e.ifasm /\ AbsStk(m.stk) = LogStk(e)
-CACands(e) ==
-  CASE e.ca = "IF"       -> {CA!DoIf(ca, c) : c \in BOOLEAN}
-    [] e.ca = "ELSEIF"   -> IF e.argc = 0 THEN {CA!DoElse(ca)}
-                            ELSE IF e.argc = 1 THEN {CA!DoElseIf(ca, c) : c \in BOOLEAN} ELSE {CA!Err(ca)}
-    [] e.ca = "ENDIF"    -> IF e.argc = 0 THEN {CA!DoEndIf(ca)} ELSE {CA!Err(ca)}
-    [] e.ca = "SWITCH"   -> {CA!DoSwitch(ca, 0)}
-    [] e.ca = "CASE"     -> IF e.argc = 0 /\ ca.stk # <<>> THEN {CA!Err(ca)} ELSE {CA!DoCaseB(ca, h) : h \in BOOLEAN}
-    [] e.ca = "ELSECASE" -> IF e.argc = 0 THEN {CA!DoElseCase(ca)} ELSE {CA!Err(ca)}
-    [] e.ca = "ENDCASE"  -> IF e.argc = 0 THEN {CA!DoEndCase(ca)} ELSE {CA!Err(ca)}
-    [] e.ca = "EXITM"    -> {CA!DoRestoreIFs(ca, d) : d \in 0..Len(ca.stk)}
-    [] OTHER             -> {ca}
+MineInit == base = 0 /\ ca = CA!InitM /\ ab = AB!InitB(1) /\ mp = InitMP /\ cw = InitW(FALSE) /\ tl = <<>>
+MineReset == base' = 0 /\ ca' = CA!InitM /\ ab' = AB!InitB(1) /\ mp' = InitMP /\ cw' = InitW(FALSE) /\ tl' = <<>>
+TInit == l = 1 /\ DR!TInit /\ MineInit
 
-\* ---- AddrBook side (same as AddrBook_Trace) -----------------------------------------------------------------
-RECURSIVE Chunks(_, _, _)
-Chunks(bb, cs, i) ==
-  IF i > Len(cs) THEN <<TRUE, bb>>
-  ELSE LET c == cs[i] IN
-       IF c.k = "X" THEN Chunks(AB!Retract(bb, c.n), cs, i + 1)
-       ELSE IF c.seg = bb.act /\ c.addr = AB!Load(bb)
-            THEN Chunks(AB!MarkUsed(AB!Advance(bb, c.n)), cs, i + 1)
-            ELSE <<FALSE, bb>>
-PostOK(bb, e) ==
-  /\ bb.act = e.seg /\ AB!Load(bb) = e.pc /\ bb.ph[bb.act] = e.ph
-  /\ (e.seg # StructSeg => Len(bb.phStk[bb.act]) = e.phd)
-  /\ Len(bb.saveStk) = e.svd /\ Len(bb.stStk) = e.std
-AfterHandler(e) ==
-  CASE e.cb = "ORG"      -> {AB!Org(ab, e.pc + e.ph), ab}
-    [] e.cb = "RORG"     -> {AB!Rorg(ab, e.pc - AB!Load(ab))}
-    [] e.cb = "SEGMENT"  -> {AB!Segment(ab, e.seg, e.pc), ab}
-    [] e.cb = "CPU"      -> {AB!Segment(ab, e.seg, e.pc)}
-    [] e.cb = "PHASE"    -> {AB!Phase(ab, e.pc + e.ph), ab}
-    [] e.cb = "DEPHASE"  -> {AB!Dephase(ab), ab}
-    [] e.cb = "SAVE"     -> {AB!Save(ab), ab}
-    [] e.cb = "RESTORE"  -> (IF AB!CanRestore(ab) THEN {AB!Restore(ab)} ELSE {}) \cup {ab}
-    [] e.cb = "STRUCT"   -> {AB!BeginStruct(ab, FALSE), ab}
-    [] e.cb = "UNION"    -> {AB!BeginStruct(ab, TRUE), ab}
-    [] e.cb = "ENDSTRUCT" -> (IF ab.stStk # <<>> THEN {AB!EndStruct(ab)} ELSE {}) \cup {ab}
-    [] OTHER             -> {ab}
-BodyAdvance(bb, e) ==
-  IF AB!InStruct(bb) /\ e.cb \notin {"ENDSTRUCT", "STRUCT", "UNION"} THEN AB!Advance(bb, e.len) ELSE bb
+\* ---- pass boundary ------------------------------------------------------------------------------------------
+\* PassBoundaryResetsEverything: Driver_Trace's Pass (the pass_begin record shows the state of the first pass: segment,
+\* counter, IfAsm, target; counters cleared) and every machine of the composition starts from its initial state -
+\* which the statements that follow then have to confirm (IF stack, counters, tag chain, recorded stream).
+PassBoundaryResetsEverything(e) ==
+  /\ DR!Pass(e)
+  /\ ca' = CA!InitM /\ ab' = Reset(e) /\ mp' = StartPass(mp, e.pass) /\ cw' = InitW(e.last /\ e.hasfile)
+  /\ base' = l /\ tl' = <<>>
+Pass(e) ==
+  /\ (e.last /\ e.hasfile) => CW!WellFormedRecs(e)
+  /\ PassBoundaryResetsEverything(e)
 
-\* ---- cross-machine claims -----------------------------------------------------------------------------------
-Inert(e, nab) == e.chunks = <<>> /\ nab = ab
-SkippedIsInert(e, nab) == (~ca.ifasm /\ ~e.ifasm /\ e.ca = "OTHER" /\ ~e.rec) => Inert(e, nab)
-RecordedIsInert(e, nca, nab) == e.rec => (Inert(e, nab) /\ nca.ifasm = ca.ifasm /\ nca.stk = ca.stk)
-IfFamilyIsAddressNeutral(e, nab) == (e.ca \notin {"OTHER", "EXITM"}) => (e.chunks = <<>> \/ \A i \in 1..Len(e.chunks) : e.chunks[i].n = 0) /\ nab.pc = ab.pc /\ nab.ph = ab.ph /\ nab.act = ab.act
+\* ---- one statement = one step of every machine -----------------------------------------------------------------
+Stmt(e) ==
+  LET ifpre  == ca.ifasm
+      recpre == mp.outs # <<>>
+      quiet  == ~HasErr(e.dg)
+      fd     == FoldDiags(o, d, e.dg, 1)
+      here   == [nl |-> e.nl, tx |-> e.tx, dp |-> e.dp, em |-> e.em]
+  IN /\ ph = "pass"
+     /\ fd[1]
+     /\ \E tg \in Deliver(Tx, mp.tags, Append(e.pre, here), 1) :
+        \E c \in CACands(ca, tg, e) :
+          /\ CAMatches(c, e)
+          /\ MachineErrorIsReported(ca, c, e.dg)
+          /\ \E m \in Produce([mp EXCEPT !.tags = tg], e, l, ifpre, Len(ca.stk), quiet) :
+               /\ Claim("TagDepthIsMachineDepth", Len(m.tags) = e.tagd)
+               /\ (m.outs # <<>>) = e.rec
+               /\ \E h \in AfterHandler(ab, e, quiet) :
+                    LET r   == Chunks(Recs, h, cw, e.ch, 1)
+                        nab == BodyAdvance(r[2], e)
+                    IN /\ r[1]
+                       /\ PostOK(nab, e)
+                       /\ SkippedIsInert(e, ca, ab, nab)
+                       /\ RecordedIsInert(e, ca, c, ab, nab)
+                       /\ IfFamilyIsAddressNeutral(e, ab, nab)
+                       /\ ErrorLineEmitsNoCode(e, ifpre, recpre)
+                       /\ LabelValueIsExec(e, ab, ifpre, recpre)
+                       /\ \E d2 \in (IF IsUserOp(e, ifpre, recpre) THEN UserCands(o, fd[2], e, e.dg # <<>>)
+                                     ELSE {fd[2]}) :
+                            /\ d2.err = e.errs
+                            /\ ErrsDeltaIsDiagCount(d, d2, e.dg, d2.err - fd[2].err)
+                            /\ d' = d2 /\ ph' = DR!Dead(d2)
+                       /\ ca' = [c EXCEPT !.errs = 0, !.warns = 0]
+                       /\ ab' = nab /\ mp' = m /\ cw' = r[3]
+     /\ prevdiag' = FALSE /\ tl' = <<>>
+     /\ UNCHANGED <<base, o, glob, keptq, cur, pass1, lastpe, resid, lastst>>
 
-TInit == l = 1 /\ ca = CA!InitM /\ ab = AB!InitB(1) /\ perr = 0
-Reset(e) == [AB!InitB(e.seg) EXCEPT !.pc[e.seg] = e.pc, !.used = [s \in AB!AllSegs |-> FALSE]]
+\* lines handed out by GetNextLine that never reached Produce_Code
+Lines(e) ==
+  /\ ph = "pass"
+  /\ \E tg \in Deliver(Tx, mp.tags, e.pre, 1) : mp' = [mp EXCEPT !.tags = tg]
+  /\ UNCHANGED <<base, ca, ab, cw, tl, ph, o, d, glob, keptq, cur, pass1, lastpe, resid, lastst, prevdiag>>
+
+\* diagnostics outside statements (AssembleFile_ExitPass, or the process died inside a statement)
+Outside(e) ==
+  LET fd == FoldDiags(o, d, e.dg, 1)
+  IN /\ ph = "pass" /\ fd[1]
+     /\ d' = fd[2] /\ ph' = DR!Dead(fd[2]) /\ tl' = e.dg /\ prevdiag' = FALSE
+     /\ UNCHANGED <<base, ca, ab, mp, cw, o, glob, keptq, cur, pass1, lastpe, resid, lastst>>
+
+PassEnd(e) ==
+  /\ DR!PassEnd(e)
+  /\ e.ifd = Len(ca.stk)
+  /\ OpenConstructsAreReported(ca, ab, tl)
+  /\ tl' = <<>> /\ UNCHANGED <<base, ca, ab, mp, cw>>
+
+\* LastPassImageEqualsFile, second half: a code file that is kept was compared, and nothing is left in it
+FileEnd(e) ==
+  /\ DR!FileEnd(e)
+  /\ Claim("LastPassImageEqualsFile", (e.kept = 1) => cw.on)
+  /\ (cw.on => StreamDone(Recs, cw))
+  /\ UNCHANGED mine
 
 TNext ==
   /\ l <= Len(TraceLog) /\ l' = l + 1
   /\ LET e == TraceLog[l] IN
-       IF e.ca = "RESET" THEN ca' = CA!InitM /\ ab' = Reset(e) /\ perr' = 0
-       ELSE \E c \in CACands(e) : \E h \in AfterHandler(e) :
-              LET r   == Chunks(h, e.chunks, 1)
-                  nab == BodyAdvance(r[2], e)
-              IN /\ CAMatches(c, e)
-                 /\ (c.errs > ca.errs) => e.errs > perr
-                 /\ r[1] /\ PostOK(nab, e)
-                 /\ SkippedIsInert(e, nab)
-                 /\ RecordedIsInert(e, c, nab)
-                 /\ IfFamilyIsAddressNeutral(e, nab)
-                 /\ ca' = [c EXCEPT !.errs = 0, !.warns = 0]
-                 /\ ab' = nab
-                 /\ perr' = e.errs
+       CASE e.a = "S"       -> Stmt(e)
+         [] e.a = "RESET"   -> DR!Reset /\ MineReset
+         [] e.a = "RUN"     -> DR!Run(e) /\ MineReset
+         [] e.a = "FILE"    -> DR!File(e) /\ UNCHANGED mine
+         [] e.a = "PASS"    -> Pass(e)
+         [] e.a = "L"       -> Lines(e)
+         [] e.a = "T"       -> Outside(e)
+         [] e.a = "LAST"    -> DR!Last(e) /\ UNCHANGED mine
+         [] e.a = "PASSEND" -> PassEnd(e)
+         [] e.a = "FILEEND" -> FileEnd(e)
+         [] e.a = "EXIT"    -> DR!Exit(e) /\ UNCHANGED mine
 
 Accepted == TLCGet("stats").diameter - 1 = Len(TraceLog)
 =============================================================================
